@@ -26,8 +26,21 @@ func immLen(skipLength, used ProgramCounter) ProgramCounter {
 	return min(4, skipLength-used)
 }
 
+// zetaAt returns the code as zeta = c ++ [0, 0, ...] (GP A.3) as far as one instruction at pc can
+// read it (opcode + at most 25 operand bytes): operand bytes past the end of the code are zeros,
+// not the bytes that happen to follow the code in the blob and never a slice out of range.
+func zetaAt(code []byte, pc ProgramCounter) []byte {
+	if int(pc)+26 <= len(code) {
+		return code
+	}
+	padded := make([]byte, int(pc)+26)
+	copy(padded, code)
+	return padded
+}
+
 // A.5.2
 func decodeOneImmediate(instructionCode []byte, pc ProgramCounter, skipLength ProgramCounter) (int, error) {
+	instructionCode = zetaAt(instructionCode, pc)
 	lX := min(4, skipLength)
 	immediateData := instructionCode[pc+1 : pc+lX+1]
 	immediate, _, err := ReadUintSignExtended(immediateData, len(immediateData))
@@ -72,6 +85,7 @@ func decodeTwoImmediates(instructionCode []byte, pc ProgramCounter, skipLength P
 // A.5.5
 // returns vX
 func decodeOneOffset(instructionCode []byte, pc ProgramCounter, skipLength ProgramCounter) (ProgramCounter, error) {
+	instructionCode = zetaAt(instructionCode, pc)
 	lX := min(4, skipLength)
 	offsetData := instructionCode[pc+1 : pc+1+lX]
 	offset, _, err := ReadIntFixed(offsetData, len(offsetData))
@@ -85,6 +99,7 @@ func decodeOneOffset(instructionCode []byte, pc ProgramCounter, skipLength Progr
 // A.5.6
 // returns rA, vX
 func decodeOneRegisterAndOneImmediate(instructionCode []byte, pc ProgramCounter, skipLength ProgramCounter) (uint8, uint64, error) {
+	instructionCode = zetaAt(instructionCode, pc)
 	rA := min(12, instructionCode[pc+1]%16)
 	lX := immLen(skipLength, 1)
 
@@ -100,6 +115,7 @@ func decodeOneRegisterAndOneImmediate(instructionCode []byte, pc ProgramCounter,
 
 // A.5.7
 func decodeOneRegisterAndTwoImmediates(instructionCode []byte, pc ProgramCounter, skipLength ProgramCounter) (int8, uint64, uint64, error) {
+	instructionCode = zetaAt(instructionCode, pc)
 	rA := int8(min(12, instructionCode[pc+1]%16))
 	lX := min(4, ProgramCounter(uint8((instructionCode[pc+1]>>4)%8)))
 	pcMargin := pc + 2 + lX
@@ -128,6 +144,7 @@ func decodeOneRegisterAndTwoImmediates(instructionCode []byte, pc ProgramCounter
 // A.5.8
 // returns rA, vX, vY
 func decodeOneRegisterOneImmediateAndOneOffset(instructionCode []byte, pc ProgramCounter, skipLength ProgramCounter) (uint8, uint64, ProgramCounter, error) {
+	instructionCode = zetaAt(instructionCode, pc)
 	rA := min(12, instructionCode[pc+1]%16)
 	lX := ProgramCounter(min(4, (instructionCode[pc+1]>>4)%8))
 	lY := immLen(skipLength, lX+1)
@@ -149,6 +166,7 @@ func decodeOneRegisterOneImmediateAndOneOffset(instructionCode []byte, pc Progra
 
 // A.5.9
 func decodeTwoRegisters(instructionCode []byte, pc ProgramCounter) (rD uint8, rA uint8, err error) {
+	instructionCode = zetaAt(instructionCode, pc)
 	if int(pc+1) >= len(instructionCode) {
 		return 0, 0, errors.New("pc out of bound")
 	}
@@ -158,6 +176,7 @@ func decodeTwoRegisters(instructionCode []byte, pc ProgramCounter) (rD uint8, rA
 }
 
 func decodeTwoRegistersAndOneImmediate(instructionCode []byte, pc ProgramCounter, skipLength ProgramCounter) (uint8, uint8, uint64, error) {
+	instructionCode = zetaAt(instructionCode, pc)
 	rA := min(12, instructionCode[pc+1]&15)
 	rB := min(12, instructionCode[pc+1]>>4)
 	lX := immLen(skipLength, 1)
@@ -176,6 +195,7 @@ func decodeTwoRegistersAndOneImmediate(instructionCode []byte, pc ProgramCounter
 // A.5.11
 // returns rA, rB, vX
 func decodeTwoRegistersAndOneOffset(instructionCode []byte, pc ProgramCounter, skipLength ProgramCounter) (uint8, uint8, ProgramCounter, error) {
+	instructionCode = zetaAt(instructionCode, pc)
 	rA := min(12, instructionCode[pc+1]%16)
 	rB := min(12, instructionCode[pc+1]>>4)
 	lX := immLen(skipLength, 1)
@@ -192,6 +212,7 @@ func decodeTwoRegistersAndOneOffset(instructionCode []byte, pc ProgramCounter, s
 // A.5.12
 // returns rA, rB, vX, vY
 func decodeTwoRegistersAndTwoImmediates(instructionCode []byte, pc ProgramCounter, skipLength ProgramCounter) (uint8, uint8, uint64, uint64, error) {
+	instructionCode = zetaAt(instructionCode, pc)
 	rA := min(12, instructionCode[pc+1]%16)
 	rB := min(12, instructionCode[pc+1]>>4)
 	lX := ProgramCounter(min(4, instructionCode[pc+2]%8))
@@ -215,6 +236,7 @@ func decodeTwoRegistersAndTwoImmediates(instructionCode []byte, pc ProgramCounte
 
 // A.5.13
 func decodeThreeRegisters(instructionCode []byte, pc ProgramCounter) (rA uint8, rB uint8, rD uint8, err error) {
+	instructionCode = zetaAt(instructionCode, pc)
 	if int(pc+2) >= len(instructionCode) {
 		return 0, 0, 0, errors.New("pc out of bound")
 	}
